@@ -244,7 +244,12 @@ class Clock:
 def _unpkl(s):
     if not (isinstance(s, tuple) and len(s) == 2 and s[0] == "PKL"):
         raise HarnessError("from_pickle of something not produced by to_pickle")
-    return s[1]
+    import copy
+    import types
+
+    if isinstance(s[1], types.FunctionType):
+        return s[1]
+    return copy.deepcopy(s[1])       # every unpickling yields a fresh object
 
 
 _MISSING = object()
